@@ -65,6 +65,9 @@ pub enum Step {
     Nogood(HeuK),
     TwoValNogood(HeuK),
     FormulaCountsNaive,
+    /// the grounded interpretation rendered with statement names (`print_interpretation`) and
+    /// the dictionary itself: the shared name container must not change under computations
+    PrintGrounded,
     FacetCountAc,
     FacetCountGrounded,
     Paths(Ref),
@@ -259,6 +262,19 @@ impl Obj {
                 let l: Vec<_> = r.iter().collect();
                 self.interps(l)?
             }
+            Step::PrintGrounded => {
+                let g = self.adf.grounded();
+                let printed = format!("{}", self.adf.print_interpretation(&g));
+                let via_dict = format!("{}", self.adf.print_dictionary().print_interpretation(&g));
+                let names = self.adf.ordering.names().read().unwrap().clone();
+                let mut mapping: Vec<(String, usize)> = self.adf.ordering.mappings().read().unwrap().iter().map(|(k, v)| (k.clone(), *v)).collect();
+                mapping.sort();
+                for t in &g {
+                    self.issue(*t)?;
+                }
+                let s = format!("{printed:?} {via_dict:?} {names:?} {mapping:?}");
+                Answer { sem: s.clone(), raw: s }
+            }
             Step::FormulaCountsNaive => {
                 let c = self.adf.formulacounts(false);
                 let s = format!("{:?}", c.iter().map(|m| (m.cmodels, m.models)).collect::<Vec<_>>());
@@ -443,7 +459,10 @@ impl Scenario for History {
     fn generate(&self, rng: &mut Rng, thorough: bool) -> HistCase {
         let n = rng.range(1, 5) as usize;
         let depth = rng.range(1, 3) as u32;
-        let spec = AdfSpec::gen(rng, n, depth, "s");
+        let mut spec = AdfSpec::gen(rng, n, depth, "s");
+        if rng.chance(1, 4) {
+            refsem::odd_names(rng, &mut spec);
+        }
         let build = match rng.below(4) {
             0 => Build::Bridged,
             1 => Build::BridgedGrounded,
@@ -472,6 +491,7 @@ impl Scenario for History {
                 5 => Step::StableCountB,
                 6 => Step::Nogood(gen_heu(rng)),
                 7 => Step::TwoValNogood(gen_heu(rng)),
+                8 if rng.chance(1, 2) => Step::PrintGrounded,
                 8 => Step::FormulaCountsNaive,
                 9 => {
                     if rng.chance(1, 2) {
@@ -575,6 +595,7 @@ impl Scenario for History {
                 } else {
                     (None, None)
                 };
+                let ord_before = if is_restart(step) { Some(ordering_of(&main.adf)) } else { None };
                 let a = match guarded(|| main.step(step)) {
                     Ok(a) => a,
                     Err(e) => {
@@ -595,6 +616,11 @@ impl Scenario for History {
                     if prop == "C14" {
                         if Some(&main.adf.bdd.nodes) != nodes_before.as_ref() {
                             result = v("restart-identity", "nodes-differ", format!("step {i} {step:?}: node table changed across the restart (len {} -> {}) {ctx}", nodes_before.unwrap().len(), main.adf.bdd.nodes.len()));
+                            break 'run;
+                        }
+                        let ord_after = ordering_of(&main.adf);
+                        if Some(&ord_after) != ord_before.as_ref() {
+                            result = v("restart-identity", "ordering-differs", format!("step {i} {step:?}: names/mapping {:?} -> {:?} {ctx}", ord_before.unwrap(), ord_after));
                             break 'run;
                         }
                         if Some(&main.adf.ac) != ac_before.as_ref() {
@@ -811,6 +837,7 @@ fn answer_kind(step: &Step) -> &'static str {
         Step::StableCountA | Step::StableCountB => "stable-counting",
         Step::Nogood(_) | Step::TwoValNogood(_) => "nogood",
         Step::FormulaCountsNaive | Step::FacetCountAc | Step::FacetCountGrounded => "counts",
+        Step::PrintGrounded => "printed",
         Step::Paths(_) | Step::MaxDepth(_) => "paths-depth",
         Step::VarDeps(_) | Step::PassiveImpact(_) | Step::ActiveImpact(_) => "dependencies",
         Step::Cubes(..) => "cubes",
@@ -867,4 +894,12 @@ fn canonical_verdict(o: &Obj, at: &str) -> Option<Violation> {
         return Some(Violation::new("canonical", "handle-function", format!("{at}: {m}")));
     }
     None
+}
+
+
+fn ordering_of(adf: &Adf) -> (Vec<String>, Vec<(String, usize)>) {
+    let names = adf.ordering.names().read().unwrap().clone();
+    let mut mapping: Vec<(String, usize)> = adf.ordering.mappings().read().unwrap().iter().map(|(k, v)| (k.clone(), *v)).collect();
+    mapping.sort();
+    (names, mapping)
 }
